@@ -32,5 +32,8 @@
 #define AIL_ENS_IS_LATCHED(rv, latched)      (AIL_BOOL(rv) && (rv) == ((latched) != 0))
 /* latch_and_drain(target): requires target empty and distinct.  Already latched: nothing.  Otherwise: ALL n items move to
  * target in order, the source becomes latched and empty -- in ONE linearisation point (head lock held throughout) */
-/* unlatch(): latched (hence empty) -> unlatched empty; otherwise nothing */
+#define AIL_ENS_LATCH_AND_DRAIN(latched_before, n_before, n_src_after, n_tgt_after, latched_after) \
+  ((latched_after) && (n_src_after) == 0 && (n_tgt_after) == ((latched_before) ? 0 : (n_before)))
+/* unlatch(): latched (hence empty) -> unlatched empty; otherwise nothing: never removes an item */
+#define AIL_ENS_UNLATCH(n_before, n_after, latched_after) (!(latched_after) && (n_after) == (n_before))
 #endif
